@@ -10,11 +10,12 @@ from .driver import Finding, RuleResult
 from .frontend import AnalysisBroken
 
 INF = 1 << 40
+# parameter index of the bit count n (1 <= n <= 64 by contract), by position
 PRIMS = {
-    'mzd_read_bits': {'n': (1, 64)},
-    'mzd_xor_bits': {'n': (1, 64)},
-    'mzd_and_bits': {'n': (1, 64)},
-    'mzd_clear_bits': {'n': (1, 64)},
+    'mzd_read_bits': {3: (1, 64)},
+    'mzd_xor_bits': {3: (1, 64)},
+    'mzd_and_bits': {3: (1, 64)},
+    'mzd_clear_bits': {3: (1, 64)},
     'mzd_read_bit': {},
     'mzd_write_bit': {},
 }
@@ -37,6 +38,9 @@ class Interp(object):
         self.on_expr = on_expr
         self.prog = prog
         self.allow_loops = allow_loops
+        self.bool_defs = {}
+        self.unknown_guard = False
+        self.guards_of_interest = ('closer',)
         self.env0 = {}
         for p in f.params:
             if p.name in hyp:
@@ -65,6 +69,12 @@ class Interp(object):
         if k == 'UnaryOperator' and e0.op == '-':
             a = self.ev(e0.kids[0], env)
             return None if a is None else (-a[1], -a[0])
+        if k == 'ConditionalOperator':
+            a = self.ev(e0.kids[1], self.refine(e0.kids[0], env, True))
+            b = self.ev(e0.kids[2], self.refine(e0.kids[0], env, False))
+            if a is None or b is None:
+                return None
+            return (min(a[0], b[0]), max(a[1], b[1]))
         if k == 'BinaryOperator' and e0.op in ('+', '-', '*', '/', '%'):
             a, b = self.ev(e0.kids[0], env), self.ev(e0.kids[1], env)
             if a is None or b is None:
@@ -116,12 +126,24 @@ class Interp(object):
             return env
         if c.kind == 'UnaryOperator' and c.op == '!':
             return self.refine(c.kids[0], env, not truth)
+        if c.kind == 'DeclRefExpr' and c.refid in self.bool_defs:
+            return self.refine(self.bool_defs[c.refid], env, truth)
         if c.kind == 'CallExpr' and callee_name(c) == '__builtin_expect':
             return self.refine(c.kids[1], env, truth)
         if c.kind == 'CallExpr' and self.prog is not None and callee_name(c):
             g = self.prog.resolve(callee_name(c), self.f)
             body = g.body if g is not None else None
-            if body is not None and len(body.kids) == 1 and body.kids[0].kind == 'ReturnStmt' and body.kids[0].kids and len(g.params) == len(c.kids) - 1:
+            # a one-line predicate, possibly with its sub-conditions named in initialised locals first
+            simple = body is not None and body.kids and body.kids[-1].kind == 'ReturnStmt' and body.kids[-1].kids and len(g.params) == len(c.kids) - 1 and \
+                all(k_.kind == 'DeclStmt' and all(v.kind == 'VarDecl' and v.kids and v.init for v in k_.kids) for k_ in body.kids[:-1])
+            if body is not None and not simple and g.name in getattr(self, 'guards_of_interest', ()):
+                self.unknown_guard = True
+            if simple:
+                for k_ in body.kids[:-1]:
+                    for v in k_.kids:
+                        self.bool_defs[v.id] = v.kids[-1]
+                body = type('B', (), {'kids': [body.kids[-1]]})()
+            if simple:
                 env2 = dict(env)
                 for pa, a in zip(g.params, c.kids[1:]):
                     iv = self.ev(a, env)
@@ -288,8 +310,9 @@ def rule_C7(ctx, prog, label, rule='C7'):
         if f is None or f.body is None:
             raise AnalysisBroken('C7: primitive %s is missing' % name)
         for h in hyp:
-            if h not in [p.name for p in f.params]:
-                raise AnalysisBroken('C7: %s has no parameter `%s` any more' % (name, h))
+            if h >= len(f.params):
+                raise AnalysisBroken('C7: %s has no parameter %d any more' % (name, h))
+        hyp = dict((f.params[i].name, v) for i, v in hyp.items())
 
         def on_shift(e, iv, f=f):
             rr.instances += 1
@@ -321,15 +344,16 @@ def rule_F9(ctx, prog, label, rule='F9'):
         f = prog.funcs.get(name)
         if f is None or f.body is None:
             continue          # mp.c is compiled only with OpenMP
-        cut = [p_ for p_ in f.params if p_.name == 'cutoff']
+        cut = [p_ for p_ in f.params if (p_.type or '').replace('const', '').strip() == 'int'][-1:]
         if not cut:
             raise AnalysisBroken('F9: %s has no cutoff parameter' % name)
+        cutname = cut[0].name
         seen = set()
 
         def on_expr(e, env, it, f=f):
             if e.kind in ('BinaryOperator', 'CompoundAssignOperator') and e.op in ('%', '%=') and e.uid not in seen:
                 x, m_ = strip(e.kids[0], casts=True), strip(e.kids[1], casts=True)
-                if x.kind == 'DeclRefExpr' and m_.kind == 'DeclRefExpr' and m_.ref == 'mult':
+                if x.kind == 'DeclRefExpr' and m_.kind == 'DeclRefExpr' and m_.refkind == 'VarDecl' and x.refkind in ('VarDecl', 'ParmVarDecl') and (x.type or '').replace('const', '').strip() == 'rci_t':
                     seen.add(e.uid)
                     iv = it.ev(x, env)
                     rr.instances += 1
@@ -339,8 +363,11 @@ def rule_F9(ctx, prog, label, rule='F9'):
                                   '`%s` is cut into word-aligned halves although it may be as small as %s here: for %s in [%s, 127] the half is 0 words wide and '
                                   'the recursive call works on an empty block (the base-case guard does not cover it)'
                                   % (x.ref, iv[0] if iv else '?', x.ref, iv[0] if iv else '?'), {}, label))
-        it = Interp(f, {'cutoff': (64, INF)}, lambda e, iv: None, prog=prog, allow_loops=True, on_expr=on_expr)
+        nbad = len(rr.findings)
+        it = Interp(f, {cutname: (64, INF)}, lambda e, iv: None, prog=prog, allow_loops=True, on_expr=on_expr)
         it.stmt(f.body, dict(it.env0))
+        if it.unknown_guard and len(rr.findings) > nbad:
+            raise AnalysisBroken('F9: the base-case predicate called by %s is not a one-line condition (possibly with named sub-conditions): not modelled' % name)
     for name in CUTOFF_WRAPPERS:
         f = prog.funcs.get(name)
         if f is None or f.body is None:
@@ -351,7 +378,7 @@ def rule_F9(ctx, prog, label, rule='F9'):
                 g = prog.resolve(callee_name(e), f)
                 if g is None:
                     return
-                idx = [i for i, p_ in enumerate(g.params) if p_.name == 'cutoff']
+                idx = [i for i, p_ in enumerate(g.params) if (p_.type or '').replace('const', '').strip() == 'int'][-1:]
                 if not idx or idx[0] + 1 >= len(e.kids):
                     return
                 iv = it.ev(e.kids[1 + idx[0]], env)
